@@ -323,9 +323,9 @@ theorem loop_unlines : ∀ (ls : List Str) (fuel : Nat) (st : St), (∀ l ∈ ls
         simp only [loop_unlines ls f _ hrest hf']
 
 theorem Media.unmarshal_unlines (ls : List Str) (hc : ∀ l ∈ ls, Clean l) :
-    Media.unmarshal C (unlines ("#EXTM3U".toList :: ls)) = (ls.foldlM (step C) {} >>= finish) := by
+    Media.unmarshal C (unlines (cs!"#EXTM3U" :: ls)) = (ls.foldlM (step C) {} >>= finish) := by
   unfold Media.unmarshal skipHeader
-  have h0 : Clean "#EXTM3U".toList := by constructor <;> decide
+  have h0 : Clean cs!"#EXTM3U" := by constructor <;> decide
   simp only [unlines]
   rw [readLine_eq, readLineP_clean h0]
   simp only [Res.ok_bind, ne_eq, not_true_eq_false, ↓reduceIte, Res.pure_eq]
